@@ -84,8 +84,8 @@ def classes(case):
 @st.composite
 def gen_case(draw):
     F_max = 10.0 ** draw(gens.fl(-1.0, 3.0))
-    l = 10.0 ** draw(gens.fl(-2.0, 1.0))
-    Cm = 10.0 ** draw(gens.fl(-3.0, 0.0))
+    l = 10.0 ** draw(gens.fl(-4.0, 1.0))  # "all positive constants": millimetre arms and very small / large moment coefficients too
+    Cm = 10.0 ** draw(gens.fl(-5.0, 0.5))
     Ct = 10.0 ** draw(gens.fl(-8.0, -3.0))
     tm = draw(st.integers(0, 9))
     if tm == 0:
@@ -119,8 +119,8 @@ def gen_boundary(draw):
     """Dyadic construction: motor forces for the moment are a * (cx sx + cy sy + cz sz) with small integer/half
     coefficients; the thrust is then placed exactly on a headroom boundary."""
     F_max = float(2 ** draw(st.integers(0, 6)))
-    l = float(2.0 ** draw(st.integers(-3, 1)))
-    Cm = float(2.0 ** draw(st.integers(-4, -1)))
+    l = float(2.0 ** draw(st.integers(-12, 1)))
+    Cm = float(2.0 ** draw(st.integers(-15, -1)))
     Cm = min(Cm, 2 * l)
     Ct = float(2.0 ** draw(st.integers(-20, -10)))
     cs = [draw(st.sampled_from([0.0, 0.5, -0.5, 1.0, -1.0, 0.25])) for _ in range(3)]
